@@ -72,6 +72,8 @@ def role(e):
 
 
 ROLE_NAMES = {}
+CUR_BODY = []      # [body] of the function whose guards are being rendered (types of locals)
+CUR_UNIT = []      # [unit] for look-through of local helper functions
 
 
 FLIP = {"Lt": "Gt", "Le": "Ge", "Gt": "Lt", "Ge": "Le", "Eq": "Eq", "Ne": "Ne"}
@@ -115,6 +117,8 @@ def signature(d, taken):
         if inner is not e[1]:
             e = ("discr", inner)
         ty = e[1][2] if (e[1][0] in ("load", "refplace") and len(e[1]) > 2) else ""
+        if e[1][0] == "var" and CUR_BODY and isinstance(e[1][1], int) and e[1][1] < len(CUR_BODY[0]["locals"]):
+            ty = CUR_BODY[0]["locals"][e[1][1]]["ty"]
         if str(ty).startswith("std::option::Option<") and v in ("0", "!1", "1", "!0"):
             return "%sis_none(%s)" % ("" if v in ("0", "!1") else "!", role(e[1]))
         return "variant(%s)=%s" % (role(e[1]), v)
@@ -129,6 +133,21 @@ def variant_of(body, ex):
             return str(inner[1]).split("::")[-1]
         if inner[0] == "call" and inner[1].startswith("std::io::Error::"):
             return "io::Error"
+        if inner[0] == "call" and CUR_UNIT and len(inner) > 3 and inner[3] in CUR_UNIT[0].bodies:
+            # Err(helper(..)): the variants the local helper can return
+            hb = CUR_UNIT[0].bodies[inner[3]]
+            vs = set()
+            for d in mir.defs(hb).get(0, []):
+                if d[0] == "stmt":
+                    x = sym.expr_rv(hb, d[3]["rv"])
+                    if x[0] == "agg":
+                        vs.add(str(x[1]).split("::")[-1])
+                    else:
+                        vs.add("?")
+                else:
+                    vs.add("?")
+            if vs and "?" not in vs:
+                return "|".join(sorted(vs))
         if inner[0] == "var":
             # Err(match ..) built in a temporary: collect the variants assigned to it
             vs = set()
@@ -366,6 +385,8 @@ def check(prog, run):
         ROLE_NAMES.clear()
         for i in range(1, b["argc"] + 1):
             ROLE_NAMES[i] = mir.debug_name(b, i)
+        CUR_BODY[:] = [b]
+        CUR_UNIT[:] = [u]
         found = {}
         for ex in flow.exits(b):
             if ex["kind"] != "err" or ex.get("variant") != "Err":
@@ -374,6 +395,21 @@ def check(prog, run):
             gs = guards.guards_of(b, ex["bb"])
             sigs = [signature(d, t) for (s, d, t) in gs]
             found.setdefault(v, []).append(sigs)
+        # rejections delegated to a local helper through `?` (an explicit guard moved into its own function, a checked conversion)
+        tries = flow.try_sites(b)
+        wantt = TRY_TABLE.get(ent, [])
+        helper_tries = set()
+        for t in tries:
+            if any(needle in sym.show(t["raw"]) for _, needle in wantt):
+                continue
+            hr = common.helper_rejections(u, t["src"])
+            if not hr:
+                continue
+            at = t["src_call_bb"] if t["src_call_bb"] is not None else t["bb"]
+            pre = [signature(d, tk) for (s_, d, tk) in guards.guards_of(b, at)]
+            for (var, d, tk) in hr:
+                found.setdefault(var, []).append(pre + [signature(d, tk)])
+            helper_tries.add(t["bb"])
         want = TABLE.get(ent, {})
         for v, rows in want.items():
             for r in rows:
@@ -389,15 +425,14 @@ def check(prog, run):
                 if not ok:
                     run.bad("R1", "%s undocumented %s <= %s" % (mir.norm(ent), v, sigs[-1] if sigs else "unconditional"),
                             "explicit rejection `%s` under guard chain %s is not in the documented contract table" % (v, sigs[-3:]), mir.loc_of(b))
-        tries = flow.try_sites(b)
-        wantt = TRY_TABLE.get(ent, [])
         for desc, needle in wantt:
             nrows += 1
             hits = [t for t in tries if needle in sym.show(t["raw"])]
             run.check(bool(hits), "R1", "%s ?%s" % (mir.norm(ent), needle), "propagates the %s rejection" % desc, "the `?` propagating the %s rejection (%s) is gone" % (desc, needle), mir.loc_of(b))
         for t in tries:
-            if not any(needle in sym.show(t["raw"]) for _, needle in wantt):
+            if not any(needle in sym.show(t["raw"]) for _, needle in wantt) and t["bb"] not in helper_tries:
                 run.bad("R1", "%s undocumented ?%s" % (mir.norm(ent), sym.show(t["src"])[:40]), "a `?` propagates a rejection that is not in the documented contract table", t["loc"])
+    CUR_BODY[:] = []
     run.floor("R1", nrows, 45, "documented guard rows")
     # ---- R2
     an = cx.an
